@@ -355,7 +355,8 @@ def c14(ctx, e):
             between[(ev["inv"], ev["path"])] = True
     for (inv, path) in created:
         r = e.invocations[inv - 1]
-        if (inv, path) not in between and r.outcome in ("SUCCEEDED", "FAILED"):
+        # (an invocation that FAILED may have failed inside that very code: only a SUCCEEDED one must have run all of it)
+        if (inv, path) not in between and r.outcome == "SUCCEEDED":
             n = nodes.get(path, {})
             if not n.get("between"):
                 continue
